@@ -4,6 +4,9 @@ import cvlib
 # (cmv_guardstub.h); the groups that establish that contract on the real cmb_resourceguard.c count for them in full.
 if not hasattr(cvlib, 'FULL_GROUPS'):
     cvlib.FULL_GROUPS = {}
+# C09 ("everything it held is released and offered to the waiters") calls the drop methods of the held objects through
+# recording stubs; the groups that establish those methods' contracts count for it in full.
+cvlib.FULL_GROUPS.setdefault('C09', []).extend([r'C05\.O3\.drop', r'C07\.O4\.drop'])
 for _p_ in ('C05', 'C07', 'C11', 'C12'):
     cvlib.FULL_GROUPS.setdefault(_p_, []).extend([r'C04\.O3\.guard_wait', r'C06\.O2\.guard_signal'])
 _f = ['cmb_process_hold', 'cmb_process_timer_add/_cancel/_timers_clear', 'cmb_process_wait_process', 'cmb_process_wait_event', 'cmb_process_interrupt', 'cmb_process_resume',
@@ -31,6 +34,6 @@ GROUPS = [
     _p('C04.O3.guard_wait', 'C04', 'h_guardwait', 'H_GUARDWAIT', 'foreign causes before and during the wait; another waiter or not; the guard signalled or not, demand true/false', also=['C08', 'C05', 'C07', 'C11', 'C12'], canaries=2),
     _p('C06.O2.guard_signal', 'C06', 'h_guardsignal', 'H_GUARDSIGNAL', '<= 2 waiters with arbitrary priorities and entry times, one observer guard with one waiter; signal / cancel / remove', also=['C13', 'C05', 'C07', 'C11', 'C12'], observers=1),
     _p('C06.O3.priority_set', 'C06', 'h_prioset', 'H_PRIOSET', 'a process queued at a guard with a competitor, one armed timer, one held object'),
-] + [_p('C09.O2.end.%s' % nm, 'C09', 'h_end', 'H_END', '%s; holding <= 1 object, <= 1 timer, queued at <= 1 guard, <= 1 pending wake-up, <= 2 waiters' % nm, extra=['CMV_ROUTE=%d' % r])
+] + [_p('C09.O2.end.%s' % nm, 'C09', 'h_end', 'H_END', '%s; holding <= 1 object, <= 1 timer, queued at <= 1 guard, <= 1 pending wake-up, <= 2 waiters; stop-by-other also: granted its turn at a guard but not yet resumed, another waiter behind it' % nm, extra=['CMV_ROUTE=%d' % r], also=['C08'])
      for r, nm in ((0, 'exit'), (1, 'stop_by_other'), (2, 'stop_self'))] + [
 ]
